@@ -5,6 +5,7 @@ import (
 	"time"
 
 	"github.com/risor-io/risor/arg"
+	"github.com/risor-io/risor/internal/verifhook"
 	"github.com/risor-io/risor/object"
 )
 
@@ -57,6 +58,8 @@ func Sleep(ctx context.Context, args ...object.Object) object.Object {
 	if err != nil {
 		return err
 	}
+	verifhook.Yield("time.sleep")
+	defer verifhook.Yield("time.sleep.done")
 	timer := time.NewTimer(time.Duration(d*1000) * time.Millisecond)
 	defer timer.Stop()
 	select {
